@@ -1,6 +1,7 @@
 """Hypothesis strategies for query IRs (see lang.py for the IR)."""
 from __future__ import annotations
 
+import copy
 from dataclasses import dataclass, field
 from typing import List, Optional
 
@@ -38,6 +39,8 @@ class Cfg:
     allow_predicates_in_or: bool = True
     unique_domains: bool = False
     allow_plain_variables: bool = True
+    allow_symcall_terms: bool = True   # sf_half(n): a symbolic function whose (possibly falsy) output is an operand
+    allow_shared_nodes: bool = True    # one atom / term object occurring several times in a query
     flatten_nonempty: bool = False
     allow_subquery_bool_root: bool = True
     min_dom: int = 0
@@ -54,6 +57,11 @@ class _Ctx:
         self.plain_str = []  # indexes of variables over plain strs
         self.no_pred = 0  # >0: no Predicate / symbolic function atoms (inside for_all while that finding stands)
         self.truthy_only = 0  # >0: literals are drawn truthy (inside for_all while the falsy-literal finding stands)
+        self.in_symcall = False
+        self.in_local_scope = 0  # >0 while generating below a quantifier: those nodes mention local variables
+        self.made_atoms = []  # atoms generated so far, candidates for a second occurrence of the same object
+        self.made_int_terms = []
+        self.n_shared = 0
 
     # ---- terms -----------------------------------------------------------------------------
     def is_plain(self, r):
@@ -83,7 +91,32 @@ class _Ctx:
         return t
 
     def int_term(self, scope, allow_lit=True):
+        """an int-valued term; sometimes a second occurrence of a term object made earlier"""
+        from .lang import term_refs
+
         d = self.draw
+        if self.cfg.allow_shared_nodes and self.made_int_terms and not self.no_pred and not self.truthy_only and d(st.integers(0, 7)) == 0:
+            cands = [t for t in self.made_int_terms if term_refs(t) <= {tuple(r) for r in scope}]
+            if cands:
+                t = d(st.sampled_from(cands))
+                if "share" not in t:
+                    t["share"] = self.n_shared
+                    self.n_shared += 1
+                return copy.deepcopy(t)
+        t = self._int_term(scope, allow_lit)
+        if t["t"] not in ("lit", "var") and not self.in_local_scope:
+            self.made_int_terms.append(t)
+        return t
+
+    def _int_term(self, scope, allow_lit=True):
+        d = self.draw
+        if (self.cfg.allow_symcall_terms and self.cfg.allow_predicates and not self.no_pred and not self.in_symcall
+                and d(st.integers(0, 5)) == 0 and (self.items(scope) or any(self.is_plain(r) and self.vars[r[1]]["type"] == "int" for r in scope))):
+            self.in_symcall = True
+            try:
+                return {"t": "symcall", "name": "sf_half", "of": self._int_term(scope, allow_lit=False)}
+            finally:
+                self.in_symcall = False
         opts = ["a", "a", "b"]
         if self.flags["tags_nonempty"]:
             opts.append("tag0")
@@ -121,8 +154,26 @@ class _Ctx:
 
     # ---- atoms -----------------------------------------------------------------------------
     def atom(self, scope):
+        """an atomic condition; sometimes a second occurrence of an atom object made earlier (as in
+        `c = x.a > 1; or_(and_(c, d), and_(not_(c), e))`)"""
+        from .lang import cond_refs
+
         d = self.draw
-        kinds = ["cmp_int", "cmp_int", "cmp_int", "cmp_str", "ident", "in_int", "in_item", "bool_call", "substr"]
+        if self.cfg.allow_shared_nodes and self.made_atoms and not self.no_pred and not self.truthy_only and d(st.integers(0, 6)) == 0:
+            cands = [a for a in self.made_atoms if cond_refs(a) <= {tuple(r) for r in scope}]
+            if cands:
+                a = d(st.sampled_from(cands))
+                if "share" not in a:
+                    a["share"] = self.n_shared
+                    self.n_shared += 1
+                return copy.deepcopy(a)
+        a = self._atom(scope)
+        self.made_atoms.append(a)
+        return a
+
+    def _atom(self, scope):
+        d = self.draw
+        kinds = ["cmp_int", "cmp_int", "cmp_int", "cmp_str", "ident", "in_int", "in_item", "bool_call", "substr", "truthy"]
         if self.cfg.allow_predicates and not self.no_pred:
             kinds += ["hastype", "pred", "symfn"]
         kinds += ["val_eq"] if self.truthy_only else ["friend_none", "val_eq"]
@@ -138,6 +189,13 @@ class _Ctx:
             k = "cmp_str"
         if k == "cmp_str" and not self.items(scope) and not any(self.vars[x[1]]["type"] == "str" for x in scope if self.is_plain(x)):
             k = "cmp_int"
+        if k == "truthy":
+            # an int-valued expression used as a condition: true iff the value is not 0
+            t = self.int_term(scope, allow_lit=False)
+            if t["t"] == "var":
+                # a bare variable is not a condition (it is the thing conditions are about)
+                return {"c": "cmp", "op": "!=", "l": t, "r": {"t": "lit", "v": 0}}
+            return {"c": "bool", "x": t}
         if k == "cmp_int":
             l = self.int_term(scope, allow_lit=False)
             r = self.int_term(scope)
@@ -485,6 +543,9 @@ def query_ir(draw, cfg: Cfg):
                 quant, keep = "an", True
         if keep:
             ctx.vars[i]["sub"] = {"quant": quant, "cond": sub_cond}
+        # the condition of a sub-query is about the inner variable, the outer query is about its answers: expression
+        # objects are not shared across that boundary
+        ctx.made_atoms, ctx.made_int_terms = [], []
     n_conds = draw(st.sampled_from([0, 1, 1, 1, 1, 1, 1, 2, 2, 2, 3]))
     if cfg.fragment == "c02":
         conds = [ctx.cond_c02(scope, draw(st.integers(0, cfg.depth))) for _ in range(n_conds)]
